@@ -196,3 +196,10 @@ Example C04_struct_runs_example :
   /\ is_err (xserialize w_words w_pu 30 (xs_env []) (xs_scope "XPtrs") (VPtr (TPtr (TStruct "XPtrs")) None)) = true
   /\ is_ok (xserialize w_words w_pu 30 (xs_env []) (xs_scope "Choice") (VMap t_str_map false [(vstr "o", xs_inner_v 5 "z")])) = true.
 Proof. vm_compute. repeat split; reflexivity. Qed.
+
+(* xwf is conservative over wf_schema: on a schema without struct information it IS Wf.wf_schema (and the
+   operations are those of Ops.v: Proofs/XEmbed.v), so C04_struct_never_panics generalises C04_never_panics *)
+From Verif Require Import Proofs.XWfEmbed.
+Theorem C04_struct_wf_conservative : forall st e s, xwf (embed_env st e) (embed s) = wf_schema e s.
+Proof. exact xwf_embed. Qed.
+Print Assumptions C04_struct_wf_conservative.
